@@ -1,99 +1,15 @@
 //! C08 — argument classification.
 use crate::inv::*;
 use embedded_cli::__verif::*;
+use crate::model::args::*;
 use embedded_cli::arguments::{Arg, ArgList};
+
+const L1: usize = L + 1;
 
 #[cfg(not(vp_thorough))]
 const L: usize = 6;
 #[cfg(vp_thorough)]
 const L: usize = 8;
-
-/// scalar value and encoded length at `b[i]` (input is well-formed)
-fn decode_at(b: &[u8], i: usize) -> (u32, usize) {
-    let b0 = b[i] as u32;
-    if b0 < 0x80 {
-        (b0, 1)
-    } else if b0 < 0xE0 {
-        (((b0 & 0x1F) << 6) | (b[i + 1] as u32 & 0x3F), 2)
-    } else if b0 < 0xF0 {
-        (((b0 & 0x0F) << 12) | ((b[i + 1] as u32 & 0x3F) << 6) | (b[i + 2] as u32 & 0x3F), 3)
-    } else {
-        (
-            ((b0 & 0x07) << 18) | ((b[i + 1] as u32 & 0x3F) << 12) | ((b[i + 2] as u32 & 0x3F) << 6) | (b[i + 3] as u32 & 0x3F),
-            4,
-        )
-    }
-}
-
-const VALUE: u8 = 0;
-const LONG: u8 = 1;
-const SHORT: u8 = 2;
-const DD: u8 = 3;
-
-/// Reference classification of the NUL separated token buffer `raw[..n]`, written
-/// from the statement.  Item k: kind[k], and (off[k], len[k]) for strings or
-/// scalar[k] for short options.
-struct Items {
-    kind: [u8; L + 1],
-    off: [usize; L + 1],
-    len: [usize; L + 1],
-    scalar: [u32; L + 1],
-    n: usize,
-}
-
-fn classify(raw: &[u8; L], n: usize) -> Items {
-    let mut it = Items {
-        kind: [0; L + 1],
-        off: [0; L + 1],
-        len: [0; L + 1],
-        scalar: [0; L + 1],
-        n: 0,
-    };
-    let mut values_only = false;
-    let mut start = 0usize;
-    let mut i = 0usize;
-    // one extra round for the token that ends at the end of the buffer
-    while i <= L {
-        if i <= n && (i == n || raw[i] == 0) {
-            let len = i - start;
-            if !values_only && len > 1 && raw[start] == b'-' {
-                if raw[start + 1] == b'-' {
-                    if len == 2 {
-                        values_only = true;
-                        it.kind[it.n] = DD;
-                        it.n += 1;
-                    } else {
-                        it.kind[it.n] = LONG;
-                        it.off[it.n] = start + 2;
-                        it.len[it.n] = len - 2;
-                        it.n += 1;
-                    }
-                } else {
-                    let mut p = start + 1;
-                    let mut k = 0usize;
-                    while k < L {
-                        if p < i {
-                            let (c, l) = decode_at(raw, p);
-                            it.kind[it.n] = SHORT;
-                            it.scalar[it.n] = c;
-                            it.n += 1;
-                            p += l;
-                        }
-                        k += 1;
-                    }
-                }
-            } else {
-                it.kind[it.n] = VALUE;
-                it.off[it.n] = start;
-                it.len[it.n] = len;
-                it.n += 1;
-            }
-            start = i + 1;
-        }
-        i += 1;
-    }
-    it
-}
 
 #[kani::proof]
 #[kani::unwind(11)]
@@ -105,7 +21,7 @@ fn c08_classify_vs_model() {
     let is_empty: bool = kani::any();
     // an empty token list is represented by the flag only
     kani::assume(!is_empty || n == 0);
-    let want = classify(&raw, n);
+    let want: Items<L1> = classify::<L, L1>(&raw, n);
     let text = unsafe { core::str::from_utf8_unchecked(&raw[..n]) };
     let base = text.as_ptr() as usize;
     let list = ArgList::new(Tokens::from_raw(text, is_empty));
